@@ -53,7 +53,7 @@ def real_tokens(beh):
     return [t for t in beh['toks'] if t['t'] != 'SB']
 
 
-def render(beh, layout='spaced', rnd=None, final_newline=True, crlf=False):
+def render(beh, layout='spaced', rnd=None, final_newline=True, crlf=False, info=None):
     """Concrete bytes for a behaviour, or None when the behaviour cannot be laid out
     (statement after a nested short-if inside the outer one; statement starting with `(`
     directly inside a short-if)."""
@@ -64,6 +64,13 @@ def render(beh, layout='spaced', rnd=None, final_newline=True, crlf=False):
     line_has_comment = False
     seen_scopes = set()
     body_start = False
+    nsig = 0
+    spans = {}
+
+    def note(tok):
+        for s in tok['s']:
+            a, b = spans.get(s, (nsig, nsig))
+            spans[s] = (min(a, nsig), max(b, nsig))
     for idx, t in enumerate(toks):
         if t['t'] == 'SB':
             sb_pending = True
@@ -77,6 +84,8 @@ def render(beh, layout='spaced', rnd=None, final_newline=True, crlf=False):
             if layout == 'lines' and rnd is not None:
                 out.append(b' ' * rnd.randrange(4))
             out.append(w)
+            nsig += 1
+            note(t)
             prev = t
             sb_pending = False
             continue
@@ -93,10 +102,13 @@ def render(beh, layout='spaced', rnd=None, final_newline=True, crlf=False):
         if sb_pending and body_start and w == b'do':
             return None     # `if (c) do` is picotool's deliberate loophole form, outside the dialect
         gap = b''
+        nsemi = 0
         if must_semi or (layout == 'semis' and sb_pending):
             gap += b';'
+            nsemi = 1
         if must_nl:
-            gap += b'\n'
+            # (a `;` written here belongs to the next line, not to the line scope that just ended)
+            gap = b'\n' + gap
             line_has_comment = False
         elif layout == 'tight':
             if sb_pending and not no_nl:
@@ -133,8 +145,13 @@ def render(beh, layout='spaced', rnd=None, final_newline=True, crlf=False):
             gap = gap.replace(b'\n', b'\r\n')
         out.append(gap)
         out.append(w)
+        nsig += nsemi + 1
+        note(t)
         prev = t
         sb_pending = False
+    if info is not None:
+        info['scopes'] = [list(v) for k, v in sorted(spans.items())]
+        info['nsig'] = nsig
     src = b''.join(out)
     if final_newline and src:
         src += b'\r\n' if crlf else b'\n'
